@@ -55,7 +55,8 @@ for line in resl.split("\n"):
         c, v = line.split("=", 1); rc, viol, first = v.split("|", 2)
         checks[c] = {"exit": int(rc), "violation_lines": int(viol), "first": first}
 import os
-r = {"property": P, "seed": os.path.basename(out), "breaks": meta.get("summary"), "needs": meta.get("needs"),
+import subprocess
+r = {"property": P, "seed": os.path.basename(out), "repo_head": subprocess.check_output(["git", "-C", "/repo", "rev-parse", "--short", "HEAD"]).decode().strip(), "breaks": meta.get("summary"), "needs": meta.get("needs"),
      "confirmed": {"patch_applies": applied == "1", "builds": b == "0", "existing_tests_pass": t == "0",
                    "demo_passes_unchanged": d0 == "0", "demo_fails_with_change": d1 not in ("0", "-1")},
      "ran": ["git apply patch.diff in a scratch worktree of /repo HEAD", "go build ./...", "unshare --ipc go test -p 1 -vet=off -count=1 ./...",
